@@ -143,7 +143,7 @@ struct obs {
 enum {
     F_EOF_RC = 1, F_EOF_POS = 2, F_EOF_LEN = 4, F_EOF_OCTETS = 8,
     F_EOF_STATE = 16, F_ESC_RC = 32, F_ESC_END_STATE = 64, F_SRC = 128,
-    F_SINK = 256, F_REF = 512, F_S_GARBAGE_STATE = 1024
+    F_SINK = 256, F_REF = 512, F_S_GARBAGE_STATE = 1024, F_SRC_STATE = 2048
 };
 
 static unsigned judge(const struct refout *r, const struct obs *o,
@@ -182,6 +182,14 @@ static unsigned judge(const struct refout *r, const struct obs *o,
     case O_SRC_ERR:
         if (o->rc != in->src_err)
             f |= F_SRC;
+        /* a source error outside an escape pair (idle link, EAGAIN, ...)
+         * destroys nothing: the synchronisation state must be the one that
+         * belongs to the octets consumed so far, otherwise well-formed frames
+         * that follow are lost although nothing was corrupted (seed C12-G) */
+        /* (a source failing with -EILSEQ itself is indistinguishable from an
+         * invalid escape for the decoder: not judged) */
+        if (!r->midesc && in->src_err != -EILSEQ && o->pos == r->c && o->state != r->st)
+            f |= F_SRC_STATE;
         break;
     case O_SINK_ERR:
         if (o->rc != in->sink_err)
@@ -253,6 +261,7 @@ void harness(void)
     VP_ASSERT(!(f & F_S_GARBAGE_STATE),
               "C12.step.sof-missing-start-discards-rest-of-frame");
     VP_ASSERT(!(f & F_SRC), "C12.step.source-error-unchanged");
+    VP_ASSERT(!(f & F_SRC_STATE), "C12.step.source-error-keeps-synchronisation-state");
     VP_ASSERT(!(f & F_SINK), "C12.step.sink-error-unchanged");
 
     /* ---- reachability of the interesting ways a call can go ---- */
